@@ -63,6 +63,8 @@ class Fn:
             return 'CT'
         if isinstance(n, ast.Constant) and (n.value is False or n.value is None):
             return 'CF'
+        if isinstance(n, ast.Constant) and isinstance(n.value, str):
+            return 'CT' if n.value else 'CF'
         if isinstance(n, ast.BoolOp):
             op = 'CAndb' if isinstance(n.op, ast.And) else 'COrb'
             xs = [self.cond_s(v) for v in n.values]
@@ -159,6 +161,10 @@ class Fn:
 
             def kk(e2):
                 return self.block(rest, e2, k)
+            if c == 'CT':
+                return self.block(s.body, env, kk)
+            if c == 'CF':
+                return self.block(s.orelse, env, kk)
             return '(DIf %s %s %s)' % (c, self.block(s.body, env, kk),
                                        self.block(s.orelse, env, kk))
         if isinstance(s, ast.Try):
@@ -342,4 +348,19 @@ def gen_trees(mod):
            raises={},
            ignore=('deprecated_reason =', 'deprecated_since =', 'deprecated_msg =', 'warnings.warn('))
     out += f.translate(find_func(enf.body, '_handle_deprecated_rule').body)
+
+    # ---- pick_default_policy_file
+    loc = "conf.get_location('policy_file', 'oslo_policy').location"
+    f = Fn('pick_tree',
+           atoms={"conf.oslo_policy.policy_file == 'policy.yaml'": 0,
+                  'fallback_to_json_file': 1,
+                  'conf.find_file(conf.oslo_policy.policy_file)': 2,
+                  loc + ' == cfg.Locations.opt_default': 3,
+                  loc + ' == cfg.Locations.set_default': 4,
+                  "conf.find_file('policy.json')": 5,
+                  'conf.oslo_policy.policy_file': 6},
+           rets={'conf.oslo_policy.policy_file': 0, "'policy.json'": 1},
+           raises={},
+           ignore=('LOG.',))
+    out += f.translate(find_func(mod.body, 'pick_default_policy_file').body)
     return out
